@@ -160,6 +160,15 @@ def run(prop, replay=None):
             f.write(json.dumps(c) + "\n")
         vlib.ilv(["replay-engine", "--in", os.path.join(wd, "in.ndjson"), "--out", trace])
     else:
+        if prop == "C04":
+            # the oracle's own laws, exhaustively for every program of <= 2 clauses over a 56-clause universe
+            # and every database over two unary relations (spec/MC_Datalog.tla): the model is a supported
+            # model, independent of clause order and of duplicated clauses, monotone for negation-free programs
+            mres, mout, violated = vlib.tlc_model("MC_Datalog", workers=8, timeout=3000)
+            if violated:
+                vlib.tool_error("Datalog.tla violates its own meta-properties (MC_Datalog): the oracle is wrong")
+            rep.add_tlc(mres)
+            rep.cov["oracle_meta_check"] = "MC_Datalog: 51072 (program, database) pairs, 7 invariants, no violation"
         n = int(os.environ.get("VERIF_N", N[t][prop]))
         vlib.ilv(["drive-engine", "--n", n, "--seed", vlib.seed(), "--focus", FOCUS[prop], "--out", trace],
                  timeout=7200)
